@@ -84,14 +84,18 @@ func runRace(e *ev.Env) {
 			stop.Store(true)
 		case <-done:
 		}
-		select {
-		case <-done:
-		case <-time.After(3 * time.Second):
-			if npanic.Load() == 0 {
-				g.viol("deadlock|request-never-completes|"+g.hangClass("parallel-burst"), "workers did not finish within 3 s after the stop signal: requests block inside the middleware", nil)
+		// no wall-clock verdict: a confirmed leaked lock is a violation, a fired guard is inconclusive
+		if res := g.waitRealtime(done); res != "done" {
+			switch {
+			case npanic.Load() != 0:
+				// already reported by the panicking worker (panic + follow-up)
+			case res == "deadlock":
+				g.viol("deadlock|request-never-completes|"+g.hangClass("parallel-burst"), "workers wait for the middleware's mutex while no goroutine is inside the middleware (goroutine dump, twice): the lock was leaked", nil)
+			default:
+				e.Inconclusive("cache.race: workers did not finish within the real-time guard after the stop signal and no leaked lock was confirmed")
 			}
 			e.Stat("race-requests", nreq.Load())
-			e.Stat("race-cases-ended-by-panic", 1)
+			e.Stat("race-cases-ended-early", 1)
 			if nreq.Load() >= 100 {
 				e.Nontrivial("race", c.ID, cf.String())
 			}
